@@ -334,6 +334,12 @@ class Gen:
             g = self.eng(-4, -3) * si
             if self.r.chance(0.6):
                 p["ig"] = self.maybe_table("ig", self.neg(g), 0.5 * g, 2 * g, a, 0.2 * si)
+                if kind == "PMux" and self.cfg["tables"] and not isinstance(p["ig"], dict) and self.r.chance(0.35) and not self.cfg.get("micro"):
+                    # a mux sees several input voltages: a ground-current table over vi matters
+                    t = self.table("ig", 0.5 * g, 2 * g, a, 0.2 * si)
+                    if len(t["vi"]) > 1:
+                        t["ig"] = [[round(self.r.uniform(0.5 * g, 2 * g), 9) for _ in t["io"]] for _ in t["vi"]]
+                    p["ig"] = t
             if self.r.chance(0.6 if kind == "PMux" else 0.4):
                 p["iis"] = self.neg(self.eng(-4, -4) * si)
         elif kind == "Rectifier":
@@ -518,6 +524,10 @@ class Gen:
         if not cands:
             return None
         n = self.r.pick(cands)
+        if len(m.sources()) >= 2 and self.r.chance(0.12):
+            # the oldest source with everything below it: its node indices are
+            # free for whatever is added next
+            n = m.sources()[0]
         dc = True if m.kind(n) == "Source" else self.r.chance(0.5)
         mux = m.mux()
         if mux is not None and self.r.chance(0.4):
